@@ -1,0 +1,7 @@
+//go:build !verif
+
+package pdf
+
+// verifYield marks a scheduling point for the verification harness.  Without
+// the "verif" build tag it does nothing.
+func verifYield(string) {}
